@@ -13,11 +13,14 @@ import (
 	"math"
 	"math/big"
 	"os"
+	"runtime/debug"
+	"strconv"
 	"strings"
 	"sync"
 	"sync/atomic"
 	"time"
 
+	"github.com/Breeze0806/gobinlog/replication"
 	"verif/chk"
 	"verif/e3/util"
 	"verif/ref"
@@ -347,17 +350,41 @@ func msgClip(s string) string {
 	return s
 }
 
+// scratch is the per-worker buffer the cell is serialised into (between the
+// sentinel bytes of package util), so that no input buffer is allocated per case.
+type scratch struct{ buf []byte }
+
+// cellAt serialises the variant's cell at offset off between sentinels and
+// returns the data and the cell length.
+func (s *scratch) cellAt(exp *ref.JDoc, f ref.JSONFormat, variant string, off int) ([]byte, int) {
+	b := append(s.buf[:0], util.Pre[:off]...)
+	if variant == vEmptyCell {
+		b = append(b, 0, 0, 0, 0)
+	} else {
+		b = ref.JSONAppendCell(b, exp, f)
+	}
+	n := len(b) - off
+	b = append(b, util.Post...)
+	if cap(b) <= 1<<20 {
+		s.buf = b // keep (but do not pin the 16MB specials)
+	}
+	return b, n
+}
+
 // examine decodes one cell at one offset and returns what does not match.
-func examine(exp *ref.JDoc, f ref.JSONFormat, cell []byte, off int) []finding {
-	txt, n, err, pan := util.Cell(cell, off, ref.TJSON, 4, false)
+func examine(exp *ref.JDoc, f ref.JSONFormat, data []byte, cellLen, off int) []finding {
+	var txt []byte
+	var n int
+	var err error
+	pan := chk.Catch(func() { txt, n, err = replication.CellBytes(data, off, ref.TJSON, 4, false) })
 	rc := rootContext(exp, f)
 	switch {
 	case pan != "":
 		return []finding{{"json:panic:" + rc, "decoder panicked: " + msgClip(pan)}}
 	case err != nil:
 		return []finding{{"json:error:" + rc, "decoder returned an error: " + msgClip(err.Error())}}
-	case n != len(cell):
-		return []finding{{"json:consumed:" + rc, fmt.Sprintf("consumed %d bytes, the cell has %d", n, len(cell))}}
+	case n != cellLen:
+		return []finding{{"json:consumed:" + rc, fmt.Sprintf("consumed %d bytes, the cell has %d", n, cellLen)}}
 	}
 	got, perr := Parse(txt)
 	if perr != nil {
@@ -386,18 +413,18 @@ type replayInput struct {
 	CellHex string    `json:"cell_hex,omitempty"` // informational (short cells only)
 }
 
-func build(d *ref.JDoc, variant string) (exp *ref.JDoc, f ref.JSONFormat, cell []byte) {
+func expected(d *ref.JDoc, variant string) (*ref.JDoc, ref.JSONFormat) {
 	if variant == vEmptyCell {
-		return ref.JN(), ref.JSONNatural, []byte{0, 0, 0, 0}
+		return ref.JN(), ref.JSONNatural
 	}
-	exp, f = apply(d, variant)
-	return exp, f, ref.JSONCell(exp, f)
+	return apply(d, variant)
 }
 
-func evaluate(d *ref.JDoc, variant string, offs []int) []finding {
-	exp, f, cell := build(d, variant)
+func evaluate(s *scratch, d *ref.JDoc, variant string, offs []int) []finding {
+	exp, f := expected(d, variant)
 	for _, off := range offs {
-		if fs := examine(exp, f, cell, off); len(fs) > 0 {
+		data, n := s.cellAt(exp, f, variant, off)
+		if fs := examine(exp, f, data, n, off); len(fs) > 0 {
 			return fs
 		}
 	}
@@ -477,7 +504,7 @@ func hashDoc(d *ref.JDoc, h uint64) uint64 {
 
 // docOnce checks a document unless an equal one was enumerated before (the
 // spaces overlap in a few small documents).
-func (c *checker) docOnce(d *ref.JDoc) {
+func (c *checker) docOnce(w *scratch, d *ref.JDoc) {
 	h := hashDoc(d, 14695981039346656037)
 	s := &c.claimed[h&63]
 	s.mu.Lock()
@@ -492,33 +519,34 @@ func (c *checker) docOnce(d *ref.JDoc) {
 		return
 	}
 	c.docs.Add(1)
-	c.doc(d)
+	c.doc(w, d)
 }
 
 var variantIndex = map[string]int{vNatural: 0, vForceLarge: 1, vPadRootFirst: 2, vPadRootLast: 3, vPadDeepFirst: 4, vPadDeepLast: 5, vEmptyCell: 6}
 
-func (c *checker) one(d *ref.JDoc, variant string, offs []int) {
+func (c *checker) one(w *scratch, d *ref.JDoc, variant string, offs []int) {
 	c.evals.Add(int64(len(offs)))
 	c.distinct.Add(1)
 	c.byVar[variantIndex[variant]].Add(1)
-	fs := evaluate(d, variant, offs)
+	fs := evaluate(w, d, variant, offs)
 	for _, fd := range fs {
 		if _, dup := c.seen.LoadOrStore(fd.key, struct{}{}); dup {
 			continue
 		}
 		in := replayInput{Doc: d, Variant: variant}
-		_, _, cell := build(d, variant)
-		if len(cell) <= 160 {
-			in.CellHex = hex.EncodeToString(cell)
+		exp, f := expected(d, variant)
+		data, n := new(scratch).cellAt(exp, f, variant, 0)
+		if n <= 160 {
+			in.CellHex = hex.EncodeToString(data[:n])
 		}
 		key := fd.key
 		c.r.Report(chk.Violation{
 			Key:    key,
-			What:   fmt.Sprintf("%s: document %s stored as %q (%d-byte cell): %s", key, msgClip(d.String()), variant, len(cell), fd.what),
+			What:   fmt.Sprintf("%s: document %s stored as %q (%d-byte cell): %s", key, msgClip(d.String()), variant, n, fd.what),
 			Kind:   "json",
 			Replay: in,
 			Recheck: func() string {
-				for _, x := range evaluate(in.Doc, in.Variant, offs) {
+				for _, x := range evaluate(new(scratch), in.Doc, in.Variant, offs) {
 					if x.key == key {
 						return x.what
 					}
@@ -530,17 +558,17 @@ func (c *checker) one(d *ref.JDoc, variant string, offs []int) {
 }
 
 // doc checks a document in every storage variant that applies to it.
-func (c *checker) doc(d *ref.JDoc) {
-	c.one(d, vNatural, []int{0, 3})
+func (c *checker) doc(w *scratch, d *ref.JDoc) {
+	c.one(w, d, vNatural, []int{0, 3})
 	if !d.IsContainer() {
 		return
 	}
-	c.one(d, vForceLarge, []int{3})
-	c.one(d, vPadRootFirst, []int{0})
-	c.one(d, vPadRootLast, []int{3})
+	c.one(w, d, vForceLarge, []int{3})
+	c.one(w, d, vPadRootFirst, []int{0})
+	c.one(w, d, vPadRootLast, []int{3})
 	if firstContainerChild(d) >= 0 {
-		c.one(d, vPadDeepFirst, []int{3})
-		c.one(d, vPadDeepLast, []int{0})
+		c.one(w, d, vPadDeepFirst, []int{3})
+		c.one(w, d, vPadDeepLast, []int{0})
 	}
 }
 
@@ -552,7 +580,9 @@ func replay(kind string, input json.RawMessage) (bool, string) {
 	if in.Doc == nil {
 		return false, "replay file without a document"
 	}
-	exp, f, cell := build(in.Doc, in.Variant)
+	exp, f := expected(in.Doc, in.Variant)
+	data, n := new(scratch).cellAt(exp, f, in.Variant, 0)
+	cell := data[:n]
 	var b strings.Builder
 	fmt.Fprintf(&b, "document %s\nvariant %s, root %s, cell %d bytes", msgClip(exp.String()), in.Variant, rootContext(exp, f), len(cell))
 	if len(cell) <= 160 {
@@ -560,7 +590,7 @@ func replay(kind string, input json.RawMessage) (bool, string) {
 	}
 	txt, _, err, pan := util.Cell(cell, 0, ref.TJSON, 4, false)
 	fmt.Fprintf(&b, "\nrendered %q err=%v panic=%q", util.Clip(txt), err, msgClip(pan))
-	fs := evaluate(in.Doc, in.Variant, []int{0, 3})
+	fs := evaluate(new(scratch), in.Doc, in.Variant, []int{0, 3})
 	for _, fd := range fs {
 		fmt.Fprintf(&b, "\n%s: %s", fd.key, fd.what)
 	}
@@ -661,8 +691,53 @@ var (
 // A 40-member container counts as 2 nodes plus the nodes of its chosen member.
 type layers [][][]*ref.JDoc
 
-func buildLayers(maxNodes, maxDepth int, k []*ref.JDoc, emitTop func(n int, make func() *ref.JDoc)) layers {
-	L := make(layers, maxNodes+1)
+// compose enumerates every document with exactly n nodes whose members come
+// from the layers below n; put receives the depth and a constructor.
+func compose(L layers, n, maxDepth int, k []*ref.JDoc, put func(d int, mk func() *ref.JDoc)) {
+	// one member
+	for d := 0; d < maxDepth; d++ {
+		for _, x := range L[n-1][d] {
+			x := x
+			put(d+1, func() *ref.JDoc { return ref.JArr(x) })
+			put(d+1, func() *ref.JDoc { return ref.JObj([]string{"a"}, []*ref.JDoc{x}) })
+		}
+	}
+	// two members
+	for na := 1; na <= n-2; na++ {
+		nb := n - 1 - na
+		for da := 0; da < maxDepth; da++ {
+			for db := 0; db < maxDepth; db++ {
+				dd := da
+				if db > dd {
+					dd = db
+				}
+				for _, x := range L[na][da] {
+					for _, y := range L[nb][db] {
+						x, y := x, y
+						put(dd+1, func() *ref.JDoc { return ref.JArr(x, y) })
+						put(dd+1, func() *ref.JDoc { return ref.JObj([]string{"a", "bb"}, []*ref.JDoc{x, y}) })
+					}
+				}
+			}
+		}
+	}
+	// forty members
+	if n >= 3 {
+		for d := 0; d < maxDepth; d++ {
+			for _, x := range L[n-2][d] {
+				for _, p := range []int{0, 39} {
+					x, p := x, p
+					put(d+1, func() *ref.JDoc { return fan40(false, x, p, k) })
+					put(d+1, func() *ref.JDoc { return fan40(true, x, p, k) })
+				}
+			}
+		}
+	}
+}
+
+// buildLayers materialises the layers 1..maxNodes (plus one empty layer above).
+func buildLayers(maxNodes, maxDepth int, k []*ref.JDoc) layers {
+	L := make(layers, maxNodes+2)
 	for n := range L {
 		L[n] = make([][]*ref.JDoc, maxDepth+1)
 	}
@@ -671,56 +746,12 @@ func buildLayers(maxNodes, maxDepth int, k []*ref.JDoc, emitTop func(n int, make
 		L[1][1] = append(L[1][1], ref.JArr(), ref.JObj(nil, nil))
 	}
 	for n := 2; n <= maxNodes; n++ {
-		keep := n < maxNodes || emitTop == nil
-		put := func(d int, mk func() *ref.JDoc) {
-			if d > maxDepth {
-				return
-			}
-			if keep {
+		n := n
+		compose(L, n, maxDepth, k, func(d int, mk func() *ref.JDoc) {
+			if d <= maxDepth {
 				L[n][d] = append(L[n][d], mk())
-			} else {
-				emitTop(n, mk)
 			}
-		}
-		// one member
-		for d := 0; d < maxDepth; d++ {
-			for _, x := range L[n-1][d] {
-				x := x
-				put(d+1, func() *ref.JDoc { return ref.JArr(x) })
-				put(d+1, func() *ref.JDoc { return ref.JObj([]string{"a"}, []*ref.JDoc{x}) })
-			}
-		}
-		// two members
-		for na := 1; na <= n-2; na++ {
-			nb := n - 1 - na
-			for da := 0; da < maxDepth; da++ {
-				for db := 0; db < maxDepth; db++ {
-					dd := da
-					if db > dd {
-						dd = db
-					}
-					for _, x := range L[na][da] {
-						for _, y := range L[nb][db] {
-							x, y := x, y
-							put(dd+1, func() *ref.JDoc { return ref.JArr(x, y) })
-							put(dd+1, func() *ref.JDoc { return ref.JObj([]string{"a", "bb"}, []*ref.JDoc{x, y}) })
-						}
-					}
-				}
-			}
-		}
-		// forty members
-		if n >= 3 {
-			for d := 0; d < maxDepth; d++ {
-				for _, x := range L[n-2][d] {
-					for _, p := range []int{0, 39} {
-						x, p := x, p
-						put(d+1, func() *ref.JDoc { return fan40(false, x, p, k) })
-						put(d+1, func() *ref.JDoc { return fan40(true, x, p, k) })
-					}
-				}
-			}
-		}
+		})
 	}
 	return L
 }
@@ -886,9 +917,12 @@ func specials(thorough bool) []struct {
 func run(r *chk.Run) {
 	c := &checker{r: r}
 	A, K := fullScalars(), kernelScalars()
-	nodes, depth2, depth3, extraDepth := 5, 3, 3, 0
+	nodes, depth2, depth3, extraDepth := 5, 3, 4, 0
 	if r.Thorough() {
-		nodes, depth2, depth3, extraDepth = 6, 5, 5, 6
+		nodes, depth2, depth3, extraDepth = 7, 5, 5, 6
+	}
+	if v, err := strconv.Atoi(os.Getenv("VERIF_C14_NODES")); err == nil && v >= 2 {
+		nodes = v
 	}
 	var stop atomic.Bool
 	expired := func() bool {
@@ -899,6 +933,7 @@ func run(r *chk.Run) {
 	}
 
 	t0 := time.Now()
+	defer debug.SetGCPercent(debug.SetGCPercent(400)) // the decoder allocates ~250KB per large cell
 	phase := func(name string) {
 		if os.Getenv("VERIF_DEBUG") != "" {
 			fmt.Fprintf(os.Stderr, "c14: %s done at %.1fs (evals %d)\n", name, time.Since(t0).Seconds(), c.evals.Load())
@@ -907,14 +942,22 @@ func run(r *chk.Run) {
 	// space 0: scalars, top level and as the only member of a small array / object value
 	var s0 int64
 	lat := append(append([]*ref.JDoc{}, A...), scalarLattice()...)
+	// the alphabet first and sequentially, so that the counterexample reported
+	// for a failing scalar class is the same top-level scalar in every run
+	for _, x := range A {
+		c.docOnce(new(scratch), x)
+	}
 	r.Parallel(func(shard, n int) {
+		w := new(scratch)
 		for i, x := range lat {
 			if i%n != shard {
 				continue
 			}
-			c.docOnce(x)
-			c.docOnce(ref.JArr(x))
-			c.docOnce(ref.JObj([]string{"v"}, []*ref.JDoc{x}))
+			if i >= len(A) {
+				c.docOnce(w, x)
+			}
+			c.docOnce(w, ref.JArr(x))
+			c.docOnce(w, ref.JObj([]string{"v"}, []*ref.JDoc{x}))
 		}
 	})
 	s0 = int64(len(lat))
@@ -923,11 +966,12 @@ func run(r *chk.Run) {
 	// space 1: depth 1 over the full alphabet
 	var s1 atomic.Int64
 	r.Parallel(func(shard, n int) {
+		w := new(scratch)
 		k := 0
 		mine := func() bool { k++; return (k-1)%n == shard }
 		emit := func(mk func() *ref.JDoc) {
 			if mine() {
-				c.docOnce(mk())
+				c.docOnce(w, mk())
 				s1.Add(1)
 			}
 		}
@@ -964,17 +1008,18 @@ func run(r *chk.Run) {
 	phase("space1")
 	// space 2: every document over K with <= nodes nodes and depth <= depth2
 	var s2 atomic.Int64
+	L := buildLayers(nodes-1, depth2, K)
 	r.Parallel(func(shard, n int) {
+		w := new(scratch)
 		k := 0
 		emit := func(mk func() *ref.JDoc) {
 			k++
 			if (k-1)%n != shard || (k&0x3ff == 0 && expired()) || stop.Load() {
 				return
 			}
-			c.docOnce(mk())
+			c.docOnce(w, mk())
 			s2.Add(1)
 		}
-		L := buildLayers(nodes, depth2, K, func(_ int, mk func() *ref.JDoc) { emit(mk) })
 		for nn := 2; nn < nodes; nn++ {
 			for d := 1; d <= depth2; d++ {
 				for _, x := range L[nn][d] {
@@ -983,12 +1028,18 @@ func run(r *chk.Run) {
 				}
 			}
 		}
+		compose(L, nodes, depth2, K, func(d int, mk func() *ref.JDoc) {
+			if d <= depth2 {
+				emit(mk)
+			}
+		})
 	})
-
+	L = nil
 	phase("space2")
 	// space 3: every scalar of A below every chain of wrappers
 	var s3 atomic.Int64
 	r.Parallel(func(shard, n int) {
+		w := new(scratch)
 		k := 0
 		for dd := 1; dd <= depth3 || dd <= extraDepth; dd++ {
 			nw := len(wrapperNames)
@@ -1013,7 +1064,7 @@ func run(r *chk.Run) {
 						d = wrap(cc%nw, d, K)
 						cc /= nw
 					}
-					c.docOnce(d)
+					c.docOnce(w, d)
 					s3.Add(1)
 				}
 			}
@@ -1024,9 +1075,10 @@ func run(r *chk.Run) {
 	// specials
 	sp := specials(r.Thorough())
 	r.Parallel(func(shard, n int) {
+		w := new(scratch)
 		for i, s := range sp {
 			if i%n == shard {
-				c.one(s.d, s.variant, []int{0, 3})
+				c.one(w, s.d, s.variant, []int{0, 3})
 			}
 		}
 	})
@@ -1063,7 +1115,9 @@ func run(r *chk.Run) {
 }
 
 func sampleOf(d *ref.JDoc, variant string) map[string]interface{} {
-	exp, f, cell := build(d, variant)
+	exp, f := expected(d, variant)
+	data, n := new(scratch).cellAt(exp, f, variant, 0)
+	cell := data[:n]
 	txt, _, _, _ := util.Cell(cell, 0, ref.TJSON, 4, false)
 	hx := hex.EncodeToString(cell)
 	if len(hx) > 160 {
